@@ -142,7 +142,27 @@ def prepare(force=False, log=print):
                           and os.path.getmtime(os.path.join(COQ, f[:-2] + ".vo")) >= os.path.getmtime(os.path.join(COQ, f)))
         st["vo_missing"] = sorted(f[:-2] + ".vo" for f in files if (f[:-2] + ".vo") not in st["vo"])
         # a file that no longer compiles must not leave its OLD .vo behind: a property file compiled afterwards
-        # would silently be checked against the previous version of the (regenerated) definitions
+        # would silently be checked against the previous version of the (regenerated) definitions.  The same holds
+        # for everything that depends on it (make -k does not rebuild dependants of a failed target): the
+        # dependency graph is read from coqdep's output and the failure is propagated.
+        bad = set(st["vo_missing"]) | set(re.findall(r"\*\*\* \[Makefile[^\]]*?: ([^\]\s]+\.vo)\] Error", out))
+        deps = {}
+        try:
+            for line in open(os.path.join(COQ, ".Makefile.d")):
+                m = re.match(r"(\S+\.vo) .*?: (.*)", line)
+                if m:
+                    deps[m.group(1)] = [d for d in m.group(2).split() if d.endswith(".vo")]
+        except OSError:
+            pass
+        changed = True
+        while changed:
+            changed = False
+            for t, ds in deps.items():
+                if t not in bad and any(d in bad for d in ds):
+                    bad.add(t)
+                    changed = True
+        st["vo_missing"] = sorted(bad)
+        st["vo"] = [v for v in st["vo"] if v not in bad]
         for f in st["vo_missing"]:
             for ext in (".vo", ".vos", ".vok", ".glob"):
                 try:
